@@ -23,6 +23,12 @@ SFAULT = {"dangling-operator": "{{ 1 + }}", "empty-if": "{% if %}x{% endif %}", 
           "bad-filter-call": "{{ 1 | abs( }}", "assign-keyword": "{% set = 1 %}", "unclosed-comment": "{# c"}
 PREFIX = {"none": "", "ascii": "ab ", "two-byte": "é", "three-byte": "世世", "four-byte": "\U0001F600", "line2": "x\n", "line3-multibyte": "é\n世 \n  "}
 NEED = "{% component need(a) %}{{ a }}{% endcomponent need %}"
+ONECHAR = ["\u00ab", "\u00bb", "\u00bf", "\u00a1", "\u00a7", "\u00b6"]      # block start/end, variable start/end, comment start/end
+_RESPELL = {"{%": ONECHAR[0], "%}": ONECHAR[1], "{{": ONECHAR[2], "}}": ONECHAR[3], "{#": ONECHAR[4], "#}": ONECHAR[5]}
+
+
+def respell(src):
+    return re.sub(r"\{\{|\}\}|\{%|%\}|\{#|#\}", lambda m: _RESPELL[m.group(0)], src)
 
 
 def build(v):
@@ -82,6 +88,10 @@ def build(v):
         tpls += [[hn, hs], ["inc.html", "世 {{<k/>}}"], ["entry.html", "x {% include 'inc.html' %}"]]
         entry = "entry.html"
         sites = [("inc.html", "{{<k/>}}"), ("entry.html", "{% include 'inc.html' %}")]
+    if v.get("delims") == "one-char-2-byte":
+        tpls = [[n, respell(t)] for n, t in tpls]
+        hs, body, F = respell(hs), respell(body), respell(F)
+        sites = [(t, respell(c)) for t, c in sites]
     fs = len(hs[:hs.index(body) + len(PREFIX[v["prefix"]])].encode())
     fe = fs + len(F.encode())
     return tpls, entry, hn, hs, fs, fe, sites
@@ -101,12 +111,15 @@ def run(tier):
     C = vp.Check("C12", tier, "exploration")
     r = vp.tlc("MC_Spans", "MC_Spans", env={"OBS": ""}, workers=4, timeout=600, name="c12-plant")
     C.add_tlc(r, "MC_Spans (fault plantings)")
-    C.cov["rule"] = ("fault kind (17 rendering + 12 syntax) x host (7 / 4) x position prefix (7), each rendered with the optimiser on and off; non-trivial = distinct planting that produced an error")
+    C.cov["rule"] = ("fault kind (17 rendering + 12 syntax) x host (7 / 4) x position prefix (7) x delimiter set (default, six one-character 2-byte delimiters), each rendered with the optimiser on and off; non-trivial = distinct planting that produced an error")
     jobs, meta = [], []
     for v in r.tags["VEC"]:
         tpls, entry, hn, hs, fs, fe, sites = build(v)
         for opt in (True, False):
-            jobs.append({"cfg": {"optimize": opt, "autoescape": [".html"]}, "ctx": {"m": {"a": 1}}, "steps": [{"op": "add", "tpls": tpls}, {"op": "render", "name": entry}]})
+            cfg = {"optimize": opt, "autoescape": [".html"]}
+            if v.get("delims") == "one-char-2-byte":
+                cfg["delims"] = ONECHAR
+            jobs.append({"cfg": cfg, "ctx": {"m": {"a": 1}}, "steps": [{"op": "add", "tpls": tpls}, {"op": "render", "name": entry}]})
             meta.append((v, dict(tpls), hn, hs, fs, fe, sites, opt))
     res = vp.run_jobs(jobs, tag="c12", timeout=3000)
     work = vp.workdir("c12")
@@ -115,7 +128,7 @@ def run(tier):
     with open(op, "w") as f:
         for (v, tpls, hn, hs, fs, fe, sites, opt), rr, job in zip(meta, res, jobs):
             C.count()
-            key = {"fault": v["fault"], "host": v["host"], "prefix": v["prefix"], "optimizer": opt}
+            key = {"fault": v["fault"], "host": v["host"], "prefix": v["prefix"], "optimizer": opt, "delims": v.get("delims", "default")}
             if any(y.get("panic") or y.get("abort") for y in rr):
                 C.violation(dict(key, kind="panic"), "panic while reporting %s" % key, {"job": job, "result": rr})
                 continue
